@@ -38,6 +38,10 @@ var vxGoodStmts = []string{
 	"SHOW TABLES",
 	"DELETE FROM t WHERE b > 2",
 	"SELECT b , c FROM u ORDER BY b LIMIT 5",
+	"DROP TABLE t",
+	"TRUNCATE TABLE t",
+	"CREATE TABLE t ( a INT )",
+	"INSERT INTO t ( a ) VALUES ( 1 )",
 }
 
 var vxJunk = VxMakeTable(vxLexRows([]string{"a", "1", ")", "(", ",", "=", "FROM", "WHERE", "AND", "LIMIT", "BY", "TABLES"}))
@@ -121,6 +125,11 @@ func vxScriptQ(n int, onlyOne bool) {
 	}
 	vx.Notef("segments=%d malformed=%d recovery: statements=%d errors=%d", n, bad, len(stmts), len(errs))
 	vx.Assertf("C12.one_error_per_malformed", len(errs) == bad, "%d malformed statements but %d errors", bad, len(errs))
+	// precisely the trees of the well-formed statements: nothing extra, no nil entry
+	vx.Assertf("C12.exactly_the_good", len(stmts) == n-bad, "%d well-formed statements, %d statements returned", n-bad, len(stmts))
+	for k, st := range stmts {
+		vx.Assertf("C12.no_nil_statement", st != nil && !vx.IsNilPtr(st), "returned statement %d is nil", k)
+	}
 	// no good statement is lost, order preserved
 	pos := 0
 	for k, sg := range segs {
@@ -156,3 +165,42 @@ func VxC12_Script2()  { vxScript(2) }
 func VxC12_Script2q() { vxScriptQ(2, true) }
 func VxC12_Script3q() { vxScriptQ(3, true) }
 func VxC12_Script3()  { vxScript(3) }
+
+// twins: the same corruption of the same statement twice (optionally around a good statement): two
+// malformed statements that fail identically are still two errors.
+func VxC12_Twins() {
+	which := vx.Choice(len(vxGoodStmts))
+	base := VxFixed(vxGoodStmts[which])
+	bad := vxCorrupt(base)
+	vx.Assume(len(bad) > 0)
+	for j := 1; j < len(bad); j++ {
+		vx.Assume(!vxIsStart(bad[j]))
+	}
+	semi := token.Token{Type: models.TokenTypeSemicolon, Literal: ";"}
+	alone := append(append([]token.Token{}, bad...), semi, VxEOF)
+	_, err := NewParser().Parse(alone)
+	if err == nil {
+		return // the corruption left a well-formed statement
+	}
+	var toks []token.Token
+	toks = append(toks, bad...)
+	toks = append(toks, semi)
+	middle := vx.Bool()
+	if middle {
+		toks = append(toks, VxFixed("SELECT 1")...)
+		toks = append(toks, semi)
+	}
+	toks = append(toks, bad...)
+	toks = append(toks, semi, VxEOF)
+	VxNoteToks(toks)
+	stmts, errs := NewParser().ParseWithRecovery(toks)
+	want := 0
+	if middle {
+		want = 1
+	}
+	vx.Assertf("C12.one_error_per_malformed", len(errs) == 2, "two malformed statements but %d errors", len(errs))
+	vx.Assertf("C12.exactly_the_good", len(stmts) == want, "%d well-formed statements, %d statements returned", want, len(stmts))
+	for k, st := range stmts {
+		vx.Assertf("C12.no_nil_statement", st != nil && !vx.IsNilPtr(st), "returned statement %d is nil", k)
+	}
+}
